@@ -393,6 +393,14 @@ impl Bitstr {
     }
 
     fn append_bits_mut(mut self, tail: &Bitstr) -> Bitstr {
+        // the backing buffer may be longer than this value (a slice whose parent is gone):
+        // forget everything past the end before appending there
+        let end = self.range.end;
+        let data = self.data_mut();
+        data.truncate(upper_bound_index(end));
+        if end % 8 != 0 {
+            data[end / 8] &= !(0xffu8 >> (end % 8));
+        }
         if self.is_u8_slice() && tail.is_u8_slice() {
             self.data_mut().extend_from_slice(tail.slice().unwrap());
             self.range.end = self.range.end + tail.len();
